@@ -437,57 +437,69 @@ fn bool_slice(bits: usize) -> [bool; 3] {
     [bits & 1 != 0, bits & 2 != 0, bits & 4 != 0]
 }
 
-harness! {
-    /// kind=bounded tier=quick bound="every pair of bool slices of len<=3 (15 x 15 pairs, all length combinations), enumerated (the only symbolic input selects the obligation); Option forms on (Some, Some) per pair and on the None combinations once"
-    fn c16_slice_bool(s) {
-        use konst::slice::cmp as sc;
-        // ok[k]: obligation k held on every pair so far
-        let mut ok = [true; 9];
-        let mut ll = 0;
-        while ll <= 3 {
-            let mut rl = 0;
-            while rl <= 3 {
-                let mut lbits = 0;
-                while lbits < (1usize << ll) {
-                    let mut rbits = 0;
-                    while rbits < (1usize << rl) {
-                        let (la, ra) = (bool_slice(lbits), bool_slice(rbits));
-                        let l: &[bool] = &la[..ll];
-                        let r: &[bool] = &ra[..rl];
-                        let e_eq = ref_eq(l, r);
-                        let e_cmp = ref_lex_cmp(l, r);
-                        let k_eq = sc::eq_slice_bool(l, r);
-                        let k_cmp = sc::cmp_slice_bool(l, r);
-                        ok[0] &= k_eq == e_eq;
-                        ok[1] &= const_eq!(l, r) == e_eq;
-                        ok[2] &= sc::eq_option_slice_bool(Some(l), Some(r)) == e_eq;
-                        ok[3] &= (k_cmp == Equal) == k_eq;
-                        ok[4] &= k_cmp == e_cmp;
-                        ok[5] &= const_cmp!(l, r) == e_cmp;
-                        ok[6] &= sc::cmp_option_slice_bool(Some(l), Some(r)) == e_cmp;
-                        rbits += 1;
-                    }
-                    lbits += 1;
+/// every pair of bool slices of len <= `max` (`max` <= 3)
+fn slice_bool_enum<S: Src>(s: &mut S, max: usize) {
+    use konst::slice::cmp as sc;
+    // okN: obligation N held on every pair so far
+    let (mut ok0, mut ok1, mut ok2, mut ok3, mut ok4, mut ok5, mut ok6) = (true, true, true, true, true, true, true);
+    let mut ll = 0;
+    while ll <= max {
+        let mut rl = 0;
+        while rl <= max {
+            let mut lbits = 0;
+            while lbits < (1usize << ll) {
+                let mut rbits = 0;
+                while rbits < (1usize << rl) {
+                    let (la, ra) = (bool_slice(lbits), bool_slice(rbits));
+                    let l: &[bool] = &la[..ll];
+                    let r: &[bool] = &ra[..rl];
+                    let e_eq = ref_eq(l, r);
+                    let e_cmp = ref_lex_cmp(l, r);
+                    let k_eq = sc::eq_slice_bool(l, r);
+                    let k_cmp = sc::cmp_slice_bool(l, r);
+                    ok0 &= k_eq == e_eq;
+                    ok1 &= const_eq!(l, r) == e_eq;
+                    ok2 &= sc::eq_option_slice_bool(Some(l), Some(r)) == e_eq;
+                    ok3 &= (k_cmp == Equal) == k_eq;
+                    ok4 &= k_cmp == e_cmp;
+                    ok5 &= const_cmp!(l, r) == e_cmp;
+                    ok6 &= sc::cmp_option_slice_bool(Some(l), Some(r)) == e_cmp;
+                    rbits += 1;
                 }
-                rl += 1;
+                lbits += 1;
             }
-            ll += 1;
+            rl += 1;
         }
-        let e: &[bool] = &[];
-        ok[7] = !sc::eq_option_slice_bool(None, Some(e)) && !sc::eq_option_slice_bool(Some(e), None) && sc::eq_option_slice_bool(None, None);
-        ok[8] = sc::cmp_option_slice_bool(None, Some(e)) == Less && sc::cmp_option_slice_bool(Some(e), None) == Greater && sc::cmp_option_slice_bool(None, None) == Equal;
-        cov!(s, ref_lex_cmp(&[true][..], &[false, false][..]) == Greater, "C16.cover.slice_bool_enumeration_done");
-        // every obligation on its own selector value, so that a failing one does not mask the others
-        let sel = s.upto(8);
-        chk!(s, sel != 0 || ok[0], "C16.eq_slice_bool.eq_std");
-        chk!(s, sel != 1 || ok[1], "C16.const_eq.slice_bool");
-        chk!(s, sel != 2 || ok[2], "C16.eq_option_slice_bool.eq_std");
-        chk!(s, sel != 3 || ok[3], "C16.cmp_slice_bool.equal_iff_eq");
-        chk!(s, sel != 4 || ok[4], "C16.cmp_slice_bool.eq_ord");
-        chk!(s, sel != 5 || ok[5], "C16.const_cmp.slice_bool");
-        chk!(s, sel != 6 || ok[6], "C16.cmp_option_slice_bool.eq_ord");
-        chk!(s, sel != 7 || ok[7], "C16.eq_option_slice_bool.none_arms");
-        chk!(s, sel != 8 || ok[8], "C16.cmp_option_slice_bool.none_arms");
+        ll += 1;
+    }
+    let e: &[bool] = &[];
+    let ok7 = !sc::eq_option_slice_bool(None, Some(e)) && !sc::eq_option_slice_bool(Some(e), None) && sc::eq_option_slice_bool(None, None);
+    let ok8 = sc::cmp_option_slice_bool(None, Some(e)) == Less && sc::cmp_option_slice_bool(Some(e), None) == Greater && sc::cmp_option_slice_bool(None, None) == Equal;
+    cov!(s, ref_lex_cmp(&[true][..], &[false, false][..]) == Greater, "C16.cover.slice_bool_enumeration_done");
+    // every obligation on its own selector value, so that a failing one does not mask the others
+    let sel = s.upto(8);
+    chk!(s, sel != 0 || ok0, "C16.eq_slice_bool.eq_std");
+    chk!(s, sel != 1 || ok1, "C16.const_eq.slice_bool");
+    chk!(s, sel != 2 || ok2, "C16.eq_option_slice_bool.eq_std");
+    chk!(s, sel != 3 || ok3, "C16.cmp_slice_bool.equal_iff_eq");
+    chk!(s, sel != 4 || ok4, "C16.cmp_slice_bool.eq_ord");
+    chk!(s, sel != 5 || ok5, "C16.const_cmp.slice_bool");
+    chk!(s, sel != 6 || ok6, "C16.cmp_option_slice_bool.eq_ord");
+    chk!(s, sel != 7 || ok7, "C16.eq_option_slice_bool.none_arms");
+    chk!(s, sel != 8 || ok8, "C16.cmp_option_slice_bool.none_arms");
+}
+
+harness! {
+    /// kind=bounded tier=quick bound="every pair of bool slices of len<=2 (7 x 7 pairs, all length combinations), enumerated (the only symbolic input selects the obligation); Option forms on (Some, Some) per pair and on the None combinations once"
+    fn c16_slice_bool(s) {
+        slice_bool_enum(s, 2);
+    }
+}
+
+harness! {
+    /// kind=bounded tier=thorough bound="every pair of bool slices of len<=3 (15 x 15 pairs, all length combinations), enumerated (the only symbolic input selects the obligation)"
+    fn c16_slice_bool_len3(s) {
+        slice_bool_enum(s, 3);
     }
 }
 
